@@ -11,6 +11,8 @@ package bexpr
 //go:generate goimports -w grammar/grammar.go
 
 import (
+	"regexp"
+
 	"github.com/hashicorp/go-bexpr/grammar"
 	"github.com/mitchellh/pointerstructure"
 )
@@ -46,6 +48,10 @@ func CreateEvaluator(expression string, opts ...Option) (*Evaluator, error) {
 		return nil, err
 	}
 
+	// Compile the regular expressions once, before the evaluator is shared:
+	// Evaluate then only reads the syntax tree.
+	compileRegexps(ast.(grammar.Expression))
+
 	eval := &Evaluator{
 		ast:                     ast.(grammar.Expression),
 		tagName:                 parsedOpts.withTagName,
@@ -55,6 +61,27 @@ func CreateEvaluator(expression string, opts ...Option) (*Evaluator, error) {
 	}
 
 	return eval, nil
+}
+
+// compileRegexps stores the compiled regular expression of every
+// matches / not matches operator in its MatchValue. An expression that does
+// not compile is left alone; evaluating it reports the error, as before.
+func compileRegexps(expr grammar.Expression) {
+	switch node := expr.(type) {
+	case *grammar.UnaryExpression:
+		compileRegexps(node.Operand)
+	case *grammar.BinaryExpression:
+		compileRegexps(node.Left)
+		compileRegexps(node.Right)
+	case *grammar.CollectionExpression:
+		compileRegexps(node.Inner)
+	case *grammar.MatchExpression:
+		if node.Value != nil && (node.Operator == grammar.MatchMatches || node.Operator == grammar.MatchNotMatches) {
+			if re, err := regexp.Compile(node.Value.Raw); err == nil {
+				node.Value.Converted = re
+			}
+		}
+	}
 }
 
 // Evaluate attempts to match the configured expression against the supplied datum.
